@@ -442,6 +442,9 @@ def long_case(ctx, rng, method, Ndat, l, r, br, form, seed, extra=(), tag="long"
                       dict(case, t=int(ts[n]), entry=[i, a, j, b], deviating_t=[int(ts[m]) for m in badn[:20]]))
 
 
+_GLUE_FORM = [0]
+
+
 def glue_case(ctx, cls, method, data, ref, br, inst_ok=True, tag="class-glue", ordmax=None, calc_unc=False, nb=None, setup_form=None):
     """result.H of the algorithm class = Hankel matrix of (all channels, reference channels in the listed order) for the
     br THE USER PASSED, whatever legal ordmax goes with it; the setup's records are not altered; a second run gives the
@@ -468,7 +471,22 @@ def glue_case(ctx, cls, method, data, ref, br, inst_ok=True, tag="class-glue", o
     kw = dict(br=br, ordmax=ordmax, ref_ind=None if ref is None else list(ref))
     if calc_unc:
         kw.update(calc_unc=True, nb=nb)
-    alg = cls(name="a", method=method, **kw) if cls is SSIcov else cls(name="a", **kw)
+    # construction forms, rotated over the cases: keywords / a run-parameter object handed to the constructor / a bare algorithm that gets its
+    # parameters through the public set_run_params(); `method` spelled out or left to the class default where that default is the case's method
+    # (SSIcov: 'cov_mm', SSIdat: 'dat') - the matrix must be the class's own method's whatever way the parameters arrive
+    from pyoma2.algorithms.data.run_params import SSIRunParams
+    _GLUE_FORM[0] += 1
+    cform = _GLUE_FORM[0] % 3
+    default_method = (cls is SSIcov and method == "cov_mm") or (cls is not SSIcov)
+    mkw = dict(kw) if (default_method and _GLUE_FORM[0] % 2) else dict(kw, method=method)
+    if cform == 0:
+        alg = cls(name="a", **mkw)
+    elif cform == 1:
+        alg = cls(name="a", run_params=SSIRunParams(**mkw))
+    else:
+        alg = cls(name="a")
+        alg.set_run_params(SSIRunParams(**mkw))
+    ctx.hist("glue-construction", ("keywords", "run_params object", "set_run_params")[cform] + ("" if "method" in mkw else ", method left to the class default"))
     ss.add_algorithms(alg)
     case = dict(kind=tag, cls=cls.__name__, method=method, l=l, ref_ind=ref, br=br, ordmax=ordmax, samples=int(data.shape[0]), data=data.tolist())
     if calc_unc:
